@@ -530,19 +530,31 @@ package mqtt
 //@ modifies entries(cl.State.Inflight.internal), nev, evkind, evcl, evid, all(system.Info.Inflight)
 //@ ensures len(cl.State.Inflight.internal) == 0 && (forall k uint16 :: !has(cl.State.Inflight.internal, k))
 
-// verif:func mqtt.Inflight.Clone trusted fresh
+// verif:func mqtt.Inflight.Clone fresh
 //@ requires C32-lock-not-held-by-this-goroutine: i.RWMutex.lheld == 0
 //@ ensures C32-lock-released-on-return: i.RWMutex.lheld == 0
+//@ modifies i.RWMutex.lheld
 //@ ensures r0 != nil && fresh(r0) && r0.internal != nil && r0.internal != i.internal
-//@ ensures forall k uint16 :: (has(r0.internal, k) <==> has(i.internal, k)) && r0.internal[k] == i.internal[k]
+//@ ensures forall k uint16 :: (has(r0.internal, k) <==> has(i.internal, k)) && (has(r0.internal, k) ==> r0.internal[k] == i.internal[k])
 //@ ensures len(r0.internal) == len(i.internal)
 //@ ensures r0.receiveQuota == 0 && r0.sendQuota == 0 && r0.maximumReceiveQuota == 0 && r0.maximumSendQuota == 0
+// verif:loop mqtt.Inflight.Clone 1
+//@ invariant copy: c != nil && fresh(c) && c != i && c.internal != nil && fresh(c.internal) && c.internal != i.internal && rangemap1 == i.internal && i.RWMutex.lheld == 1
+//@ invariant quotas: c.receiveQuota == 0 && c.sendQuota == 0 && c.maximumReceiveQuota == 0 && c.maximumSendQuota == 0
+//@ invariant source-untouched: forall k uint16 :: dom0_1[k] <==> has(i.internal, k)
+//@ invariant copied-so-far: forall k uint16 :: (has(c.internal, k) <==> (visited1[k] && has(i.internal, k))) && (has(c.internal, k) ==> c.internal[k] == i.internal[k])
+//@ invariant size: len(c.internal) == nvisited1
 
-// verif:func mqtt.Subscriptions.GetAll trusted
+// verif:func mqtt.Subscriptions.GetAll
 //@ requires C32-lock-not-held-by-this-goroutine: s.RWMutex.lheld == 0
 //@ ensures C32-lock-released-on-return: s.RWMutex.lheld == 0
+//@ modifies s.RWMutex.lheld
 //@ ensures r0 != nil && fresh(r0)
-//@ ensures forall k string :: (has(r0, k) <==> has(s.internal, k)) && r0[k] == s.internal[k]
+//@ ensures forall k string :: (has(r0, k) <==> has(s.internal, k)) && (has(r0, k) ==> r0[k] == s.internal[k])
+// verif:loop mqtt.Subscriptions.GetAll 1
+//@ invariant copy: m != nil && fresh(m) && m != s.internal && rangemap1 == s.internal && s.RWMutex.lheld == 1
+//@ invariant source-untouched: forall k string :: dom0_1[k] <==> has(s.internal, k)
+//@ invariant copied-so-far: forall k string :: (has(m, k) <==> (visited1[k] && has(s.internal, k))) && (has(m, k) ==> m[k] == s.internal[k])
 
 // verif:func mqtt.Server.inheritClientSession modifies=all
 //@ requires validCl(cl) && validSrv(s) && s.Clients != nil && s.Topics != nil && s.Topics.root != nil && cl.State.Subscriptions != nil && cl.State.Subscriptions.internal != nil && cl.ops.options != nil && cl.ops.options.Capabilities != nil
@@ -854,11 +866,16 @@ package mqtt
 //@ requires C32-lock-not-held-by-this-goroutine: s.RWMutex.lheld == 0
 //@ ensures C32-lock-released-on-return: s.RWMutex.lheld == 0
 //@ ensures r0 != nil && fresh(r0)
-// verif:func mqtt.InlineSubscriptions.GetAll trusted
+// verif:func mqtt.InlineSubscriptions.GetAll
 //@ requires C32-lock-not-held-by-this-goroutine: s.RWMutex.lheld == 0
 //@ ensures C32-lock-released-on-return: s.RWMutex.lheld == 0
+//@ modifies s.RWMutex.lheld
 //@ ensures r0 != nil && fresh(r0)
-//@ ensures forall k int :: (has(r0, k) <==> has(s.internal, k)) && r0[k] == s.internal[k]
+//@ ensures forall k int :: (has(r0, k) <==> has(s.internal, k)) && (has(r0, k) ==> r0[k] == s.internal[k])
+// verif:loop mqtt.InlineSubscriptions.GetAll 1
+//@ invariant copy: m != nil && fresh(m) && m != s.internal && rangemap1 == s.internal && s.RWMutex.lheld == 1
+//@ invariant source-untouched: forall k int :: dom0_1[k] <==> has(s.internal, k)
+//@ invariant copied-so-far: forall k int :: (has(m, k) <==> (visited1[k] && has(s.internal, k))) && (has(m, k) ==> m[k] == s.internal[k])
 
 // verif:func packets.Subscription.Merge
 //@ modifies allentries("string", "int")
@@ -968,11 +985,16 @@ package mqtt
 //@ requires C32-lock-not-held-by-this-goroutine: p.RWMutex.lheld == 0
 //@ ensures C32-lock-released-on-return: p.RWMutex.lheld == 0
 //@ ensures r0 == len(p.internal) && r0 >= 0 && (r0 == 0 ==> (forall t string :: !has(p.internal, t)))
-// verif:func mqtt.particles.getAll trusted
+// verif:func mqtt.particles.getAll
 //@ requires C32-lock-not-held-by-this-goroutine: p.RWMutex.lheld == 0
 //@ ensures C32-lock-released-on-return: p.RWMutex.lheld == 0
+//@ modifies p.RWMutex.lheld
 //@ ensures r0 != nil && fresh(r0)
-//@ ensures forall k string :: (has(r0, k) <==> has(p.internal, k)) && r0[k] == p.internal[k]
+//@ ensures forall k string :: (has(r0, k) <==> has(p.internal, k)) && (has(r0, k) ==> r0[k] == p.internal[k])
+// verif:loop mqtt.particles.getAll 1
+//@ invariant copy: m != nil && fresh(m) && m != p.internal && rangemap1 == p.internal && p.RWMutex.lheld == 1
+//@ invariant source-untouched: forall k string :: dom0_1[k] <==> has(p.internal, k)
+//@ invariant copied-so-far: forall k string :: (has(m, k) <==> (visited1[k] && has(p.internal, k))) && (has(m, k) ==> m[k] == p.internal[k])
 // verif:ext strings.HasPrefix pure params=s,prefix
 //@ ensures len(prefix) == 1 ==> (result <==> (len(s) > 0 && s[0] == prefix[0]))
 
@@ -1232,11 +1254,18 @@ package mqtt
 //@ callsite mqtt.Clients.Delete C15-only-an-ended-session-is-discarded-at-disconnect: arg1 == cl.ID && expire && !cl.State.isTakenOver.abool && len(cl.State.Inflight.internal) == 0 && len(cl.State.Subscriptions.internal) == 0
 
 // ---- C15: housekeeping of disconnected sessions ----
-// verif:func mqtt.Clients.GetAll trusted
+// verif:func mqtt.Clients.GetAll
 //@ requires C32-lock-not-held-by-this-goroutine: cl.RWMutex.lheld == 0
 //@ ensures C32-lock-released-on-return: cl.RWMutex.lheld == 0
+//@ modifies cl.RWMutex.lheld
 //@ ensures r0 != nil && fresh(r0) && r0 != cl.internal
-//@ ensures forall k string :: (has(r0, k) <==> has(cl.internal, k)) && r0[k] == cl.internal[k] && (has(r0, k) ==> r0[k] != nil && r0[k].State.Inflight != nil && r0[k].State.Subscriptions != nil)
+//@ ensures forall k string :: (has(r0, k) <==> has(cl.internal, k)) && (has(r0, k) ==> r0[k] == cl.internal[k])
+// the registry's invariant (every registered client is a client newClient built), assumed here, not proved
+//@ axiom forall k string :: has(cl.internal, k) ==> cl.internal[k] != nil && cl.internal[k].State.Inflight != nil && cl.internal[k].State.Subscriptions != nil
+// verif:loop mqtt.Clients.GetAll 1
+//@ invariant copy: m != nil && fresh(m) && m != cl.internal && rangemap1 == cl.internal && cl.RWMutex.lheld == 1
+//@ invariant source-untouched: forall k string :: dom0_1[k] <==> has(cl.internal, k)
+//@ invariant copied-so-far: forall k string :: (has(m, k) <==> (visited1[k] && has(cl.internal, k))) && (has(m, k) ==> m[k] == cl.internal[k])
 // verif:func mqtt.Client.StopTime
 //@ ensures r0 == cl.State.disconnected
 // verif:func mqtt.Hooks.OnClientExpired trusted pure
@@ -1294,8 +1323,9 @@ package mqtt
 // verif:func mqtt.particles.add
 //@ requires C32-lock-not-held-by-this-goroutine: p.RWMutex.lheld == 0
 //@ ensures C32-lock-released-on-return: p.RWMutex.lheld == 0
-// verif:func mqtt.NewInflights trusted
-//@ ensures r0 != nil && fresh(r0)
+// verif:func mqtt.NewInflights
+//@ ensures r0 != nil && fresh(r0) && r0.internal != nil && fresh(r0.internal) && len(r0.internal) == 0 && (forall k uint16 :: !has(r0.internal, k))
+//@ ensures r0.receiveQuota == 0 && r0.sendQuota == 0 && r0.maximumReceiveQuota == 0 && r0.maximumSendQuota == 0
 // verif:func mqtt.Client.StopCause trusted pure
 
 // ======================================================================================
@@ -1303,7 +1333,7 @@ package mqtt
 // ======================================================================================
 // verif:ext context.WithCancel pure
 // verif:ext context.Background pure
-// verif:func mqtt.NewSubscriptions trusted
+// verif:func mqtt.NewSubscriptions
 //@ ensures r0 != nil && fresh(r0) && r0.internal != nil && fresh(r0.internal) && len(r0.internal) == 0
 // verif:func mqtt.NewTopicAliases trusted
 // verif:func mqtt.newClient
